@@ -322,8 +322,10 @@ def defer():
                 ts = _delay(p).total_seconds()
 
                 if ts <= 300.0:
-                    que.append(t)
-                    que.sort(key=lambda i: i.get('level'))
+                    # two events of one node can be due in the same pass
+                    if not any(job is t for job in que):
+                        que.append(t)
+                        que.sort(key=lambda i: i.get('level'))
                     t.set('status', State.waiting)
                     t.set('event', 'Periodic timer')
 
